@@ -326,6 +326,62 @@ def arrpoly_fails(case):
         wt = wantT if not full else np.moveaxis(J, -1, 0)
         if T.shape != wt.shape or not close(T, wt, 1e-9):
             return 'arrpoly-tensor: extract_tensor (d=1, as_full_matrix=%s) of an output of shape %s has shape %s / differs from the exact first-order partials' % (full, oshape, T.shape)
+    # second-order drivers with an array-valued function: the Hessian / Hessian-vector product of every entry (the entry-wise
+    # scalar programs are tied to the exact derivatives by the polynomial cases), value axes leading or trailing
+    idxs = list(itertools.product(*[range(s_) for s_ in oshape]))
+    try:
+        Hs = np.array([UTPM.extract_hessian(N, entry(UTPM.init_hessian(x), idx)) for idx in idxs]).reshape(oshape + (N, N))
+        Ha = np.asarray(UTPM.extract_hessian(N, f(UTPM.init_hessian(x))))
+        Hva = np.asarray(UTPM.extract_hess_vec(N, f(UTPM.init_hess_vec(x, v))))
+    except Exception as ex:
+        return 'arrpoly-hessian-exception: the second-order drivers of an output of shape %s raised %s' % (oshape, type(ex).__name__ + ':' + str(ex)[:60])
+    nd_ = len(oshape)
+    Hs_lead = np.moveaxis(np.moveaxis(Hs, -1, 0), -1, 0)            # (N, N) + oshape
+    if not ((Ha.shape == Hs.shape and close(Ha, Hs, 1e-9)) or (Ha.shape == Hs_lead.shape and close(Ha, Hs_lead, 1e-9))):
+        return 'arrpoly-hessian: extract_hessian of an output of shape %s (result shape %s) does not hold the Hessians of the entries' % (oshape, Ha.shape)
+    Hv_t = Hs @ v                                                     # oshape + (N,)
+    Hv_l = np.moveaxis(Hv_t, -1, 0)
+    if not ((Hva.shape == Hv_t.shape and close(Hva, Hv_t, 1e-9)) or (Hva.shape == Hv_l.shape and close(Hva, Hv_l, 1e-9))):
+        return 'arrpoly-hess_vec: extract_hess_vec of an output of shape %s (result shape %s) does not hold H v of the entries' % (oshape, Hva.shape)
+    # a complex-valued function of the real variables: the drivers return the complex derivatives (real and imaginary part
+    # are the derivatives of the real and imaginary part of the function)
+    def g(x_):
+        z = x_[0] + 1j * x_[1 % N]
+        return z * z * x_[N - 1] + c * z
+    try:
+        parts = {}
+        for nm, part in (('real', algopy.real), ('imag', algopy.imag)):
+            parts[nm] = (np.asarray(UTPM.extract_hessian(N, part(g(UTPM.init_hessian(x))))), np.asarray(UTPM.extract_hess_vec(N, part(g(UTPM.init_hess_vec(x, v))))),
+                         np.asarray(UTPM.extract_jacobian(part(g(UTPM.init_jacobian(x))))))
+        Hc = np.asarray(UTPM.extract_hessian(N, g(UTPM.init_hessian(x))))
+        Hvc = np.asarray(UTPM.extract_hess_vec(N, g(UTPM.init_hess_vec(x, v))))
+        Jc = np.asarray(UTPM.extract_jacobian(g(UTPM.init_jacobian(x))))
+    except Exception as ex:
+        return 'cplxpoly-exception: the drivers of a complex-valued function raised %s' % (type(ex).__name__ + ':' + str(ex)[:60])
+    for nm, got, k in (('hessian', Hc, 0), ('hess_vec', Hvc, 1), ('jacobian', Jc, 2)):
+        want_c = parts['real'][k] + 1j * parts['imag'][k]
+        if got.shape != want_c.shape or not close(got, want_c, 1e-9):
+            return 'cplxpoly-%s: for a complex-valued function extract_%s is not (derivatives of the real part) + i (derivatives of the imaginary part); result dtype %s' % (nm, nm, got.dtype)
+    # a complex seed point (polynomials are entire): every driver expands at the point given, not at its real part
+    z = x + 1j * np.array(case['v'], dtype=float)
+
+    def q(x_):
+        return x_[0] * x_[0] * x_[N - 1] + c * x_[1 % N] * x_[0]
+    qz = np.zeros(N, dtype=complex)                      # exact gradient of q at z
+    qz[0] += 2 * z[0] * z[N - 1] + c * z[1 % N]
+    qz[N - 1] += z[0] * z[0]
+    qz[1 % N] += c * z[0]
+    try:
+        Jz = np.asarray(UTPM.extract_jacobian(q(UTPM.init_jacobian(z))))
+        Jvz = np.asarray(UTPM.extract_jac_vec(q(UTPM.init_jac_vec(z, v))))
+        Tz = np.asarray(UTPM.extract_tensor(N, q(UTPM.init_tensor(1, z)), as_full_matrix=True))
+        Hz = np.asarray(UTPM.extract_hessian(N, q(UTPM.init_hessian(z))))
+        T2 = np.asarray(UTPM.extract_tensor(N, q(UTPM.init_tensor(2, z)), as_full_matrix=True))
+    except Exception as ex:
+        return 'cplxpoint-exception: the drivers at a complex seed point raised %s' % (type(ex).__name__ + ':' + str(ex)[:60])
+    for nm, got, want_ in (('jacobian', Jz, qz), ('jac_vec', Jvz, qz @ v), ('tensor(d=1)', Tz.reshape(-1), qz), ('tensor(d=2) vs hessian', T2, Hz)):
+        if np.shape(got) != np.shape(want_) or not close(got, want_, 1e-9):
+            return 'cplxpoint-%s: at a complex seed point the driver does not return the derivative at that point (result dtype %s)' % (nm, np.asarray(got).dtype)
     return None
 
 
